@@ -157,3 +157,23 @@ Definition route_req (tb : table) (m : string) (p : list N) : outcome :=
 
 Definition build (regs : list reg) : table :=
   fold_left (fun tb r => fst (handle tb (fst (fst r)) (snd (fst r)) (snd r))) regs [].
+
+(* ---- engine (api/engine.go) ---- *)
+(* bindRoutes -> bindFeaturedRoutes -> bindRoute, engine.go:72-126: for every added route, in order,
+   router.Handle(route.Method, route.Path, chain(handler)); the first error is returned at once and
+   the remaining routes are not bound.  (Signature verification is off; the middleware chain wraps
+   the handler and does not touch method / path.) *)
+Fixpoint engine_bind (tb : table) (rs : list reg) : table * option err :=
+  match rs with
+  | [] => (tb, None)
+  | r :: rest =>
+      let (tb', e) := handle tb (fst (fst r)) (snd (fst r)) (snd r) in
+      match e with
+      | Some _ => (tb', e)
+      | None => engine_bind tb' rest
+      end
+  end.
+
+(* Server.AddRoutes(rs, WithPrefix(g)) replaces every path by path.Join(g, path) (server.go:210-223,
+   Spec.with_prefix); addRoutes appends the group; start binds all groups on the server's router *)
+Definition engine_register (gs : list group) : table * option err := engine_bind [] (engine_routes gs).
